@@ -178,9 +178,14 @@ fn build(h: &[TOp]) -> Built {
 }
 
 fn build_s(h: &[TOp], scheme: usize) -> Built {
+    build_h(h, scheme, 0x0001_0500, 64)
+}
+
+/// as build_s, under a given header version word and id bound word (widths are decided by the declarations alone)
+fn build_h(h: &[TOp], scheme: usize, version: u32, bound: u32) -> Built {
     let g = golden();
     let op = |n: &str| g.opcode(n) as u32;
-    let mut words = model::header(0x0001_0500, 0, 64);
+    let mut words = model::header(version, 0, bound);
     let mut insts = vec![];
     let mut map: BTreeMap<u32, Ty> = BTreeMap::new();
     let mut defined: Vec<u32> = vec![];
@@ -377,7 +382,11 @@ pub fn run_hist(h: &[TOp]) -> Step {
 }
 
 pub fn run_hist_s(h: &[TOp], scheme: usize) -> Step {
-    let b = build_s(h, scheme);
+    run_hist_h(h, scheme, 0x0001_0500, 64)
+}
+
+pub fn run_hist_h(h: &[TOp], scheme: usize, version: u32, bound: u32) -> Step {
+    let b = build_h(h, scheme, version, bound);
     if !b.enabled {
         return Step { key: None, viols: vec![], outcomes: vec!["disabled".into()] };
     }
@@ -518,6 +527,22 @@ pub fn run(tier: Tier) -> Run {
         for v in res {
             run.add_all(v);
         }
+    }
+    // ---- header words: every version 0.0 .. 2.0 / 255.255 and id bounds 0, 1, 2, 3, 4, 5, 64, 2^16, 2^32-1 (below, at and
+    //      above the ids the history uses) x every history of depth <= 3 over a width-sensitive alphabet
+    {
+        let versions = [0u32, 0x0001_0000, 0x0001_0300, 0x0001_0400, 0x0001_0600, 0x0001_0700, 0x0002_0000, 0x00FF_FF00];
+        let bounds = [0u32, 1, 2, 3, 4, 5, 64, 0x1_0000, 0xFFFF_FFFF];
+        let al = vec![TOp::TInt(64, 0), TOp::TInt(24, 0), TOp::TInt(16, 1), TOp::TFloat(64), TOp::ConstLast(1), TOp::ConstLast(2), TOp::UndefLast, TOp::SwitchLast(1), TOp::SwitchLast(2), TOp::Const(0, 2), TOp::Const(0, 1)];
+        let hdrs: Vec<(u32, u32)> = versions.iter().map(|v| (*v, 64u32)).chain(bounds.iter().map(|b| (0x0001_0500u32, *b))).collect();
+        let mut total = 0u64;
+        for (v, b) in hdrs {
+            let fh = |h: &[TOp]| run_hist_h(h, 0, v, b);
+            let e = xs::enumerate(&al, 3, &fh);
+            total += e.transitions;
+            run.add_all(e.viols.iter().map(|x| Viol { key: format!("{}:header", x.key), what: format!("(header version {:#x}, bound {}) {}", v, b, x.what), replay: x.replay.clone() }));
+        }
+        run.outcome("header_word_histories", total);
     }
     // ---- long histories (U-scale): an early declaration, then N further tracked ids (distinct type declarations, or
     //      values), then a declaration that is the (N+2)-th tracked id and a literal consumer of it; and a consumer of
